@@ -429,12 +429,15 @@ theorem exceptionLeaks_present :
         exitSummary (localsOf m.backend) m p == some k.held) = true := by
   decide +kernel
 
-/-- the reviewed exits that a caller can reach with a wrong argument: `_c_compose` (cudd_zdd.pyx),
-at the type test of `g = dvars[var]` (`g: Function`), holding the references parked in `vector`
-and `vector` itself -/
+/-- none of the reviewed exits can be reached by a caller with a wrong argument: what is left needs a
+broken internal invariant or a `MemoryError`.  (The one that could — `_c_compose` of cudd_zdd.pyx at
+the type test of `g = dvars[var]`, finding F21 — is repaired in the source: every slot of `vector`
+is set to NULL, the loop that fills it is inside the `try`, the `finally` releases the slots that are
+not NULL; on the source before the repair `refTraces_exceptionSafe` and `refTraces_arraysFreed`
+fail for `_c_compose`.) -/
 theorem exceptionLeaks_reachable :
-    (knownExceptionLeaks.filter (·.reach == .userError)).map (fun k => (k.backend, k.fn, k.site)) =
-      [(.cuddZdd, "_c_compose", "typetest#1")] := by decide
+    (knownExceptionLeaks.filter (·.reach == .userError)).map (fun k => (k.backend, k.fn, k.site)) = [] := by
+  decide
 
 /-- the exits are there: several hundred exceptional paths, and the functions whose discipline hinges
 on a `try … finally` have exits INSIDE the `try` that run the `finally` (`free` after `raiseIn` is
@@ -537,7 +540,8 @@ hinges on were seen: the store into, and the release of, `vector` / `table`; the
 `Cudd_bddVectorCompose`; the hash table consumed by `cuddHashTableQuitZdd`; the traversal marks -/
 theorem refTraces_containers_covered :
     (methodHas .cuddZdd "_c_compose" (fun e => match e with | .store .. => true | _ => false) &&
-     methodHas .cuddZdd "_c_compose" (fun e => match e with | .derefAll _ "Cudd_RecursiveDerefZdd" _ => true | _ => false) &&
+     methodHas .cuddZdd "_c_compose" (fun e => match e with
+       | .derefAll _ "Cudd_RecursiveDerefZdd" _ | .derefNonNull _ "Cudd_RecursiveDerefZdd" _ => true | _ => false) &&
      methodHas .cuddZdd "_c_compose" (fun e => match e with | .free .. => true | _ => false) &&
      methodHas .cuddZdd "_compose_root" (fun e => match e with | .derefAll _ _ "values" => true | _ => false) &&
      methodHas .cuddZdd "_compose" (fun e => match e with | .store .. => true | _ => false) &&
